@@ -272,7 +272,55 @@ def rule_stack_pairing(db: ProgramDB) -> List[Instance]:
             if isinstance(n, ast.stmt) and not isinstance(n, (ast.If, ast.For, ast.While, ast.With, ast.Try,
                                                                ast.FunctionDef, ast.ClassDef, ast.Match)):
                 muts += _stack_mutations(n)
+        if not muts:
+            continue
+        # accepted idiom: the whole stack is set aside and put back (`saved = <stack>; <stack> = []` ... `<stack> = saved` on every
+        # exit): the block runs with no expression context and leaves the stack as it found it
+        saved_names = {a.targets[0].id for a in own_nodes(fn.node) if isinstance(a, ast.Assign) and len(a.targets) == 1 and isinstance(a.targets[0], ast.Name)
+                       and isinstance(a.value, ast.Attribute) and a.value.attr == "_symbolic_expression_stack_"}
+        restores = [node for o, node in muts if o == "assign" and isinstance(node, ast.Assign) and isinstance(node.value, ast.Name) and node.value.id in saved_names]
+        replaces = [node for o, node in muts if o == "assign" and isinstance(node, ast.Assign) and isinstance(node.value, (ast.List, ast.Call))
+                    and (isinstance(node.value, ast.List) and not node.value.elts or isinstance(node.value, ast.Call) and dotted(node.value.func) == "list" and not node.value.args)]
+        paired = set()
+        if restores and replaces and len(restores) + len(replaces) == len(muts):
+            cfg = CFG(fn)
+            r_ids = {id(r) for r in restores}
+
+            def restores_stack(nd):
+                return nd.kind == "stmt" and nd.ast is not None and id(nd.ast) in r_ids
+            all_ok = True
+            for rp in replaces:
+                start = next((nd for nd in cfg.nodes if nd.kind == "stmt" and nd.ast is rp), None)
+                # the previous stack is saved on the way to the replacement
+                saved_before = start is not None and cfg.find_path(cfg.entry, lambda nd: nd.id == start.id, kinds=("n",), blocked=lambda nd: nd.kind == "stmt" and isinstance(nd.ast, ast.Assign)
+                                                                   and len(nd.ast.targets) == 1 and isinstance(nd.ast.targets[0], ast.Name) and nd.ast.targets[0].id in saved_names) is None
+                def feasible(e):
+                    """after the replacement the saved stack is a list: the branch `saved is None` is not taken"""
+                    if not cfg.no_cleanup_exc(e):
+                        return False
+                    src = cfg.nodes[e.src]
+                    t = getattr(src.stmt, "test", None) if src.kind == "test" else None
+                    if isinstance(t, ast.Compare) and len(t.ops) == 1 and isinstance(t.left, ast.Name) and t.left.id in saved_names \
+                            and isinstance(t.comparators[0], ast.Constant) and t.comparators[0].value is None:
+                        if isinstance(t.ops[0], ast.IsNot):
+                            return e.label != "F"
+                        if isinstance(t.ops[0], ast.Is):
+                            return e.label != "T"
+                    return True
+                leak = None if start is None else cfg.find_path(start.id, lambda nd: nd.id in (cfg.exit, cfg.raise_exit) or nd.kind == "closed", kinds=("n", "e", "s"),
+                                                                blocked=restores_stack, edge_ok=feasible)
+                if start is None or not saved_before or leak is not None:
+                    all_ok = False
+                    out.append(inst("STACK-PAIRING", VIOLATION, fn, f"{fn.short}[stack set aside and put back]",
+                                    f"`{unparse(rp)[:70]}` replaces the expression-context stack and " + ("the previous stack is not saved before" if not saved_before else
+                                    "an exit is reached without it being put back: " + " ".join(cfg.describe_path(leak)[-3:])), line=rp.lineno))
+            if all_ok:
+                paired = {id(x) for x in restores + replaces}
+                out.append(inst("STACK-PAIRING", HOLDS, fn, f"{fn.short}[stack set aside and put back]",
+                                "the stack is set aside for the block and put back on every exit (normal, exceptional, closed while suspended)"))
         for o, node in muts:
+            if id(node) in paired:
+                continue
             out.append(inst("STACK-PAIRING", VIOLATION, fn, f"{fn.short}[{o} on _symbolic_expression_stack_]",
                             f"`{unparse(node)[:80]}` mutates the expression-context stack outside __enter__/__exit__",
                             line=node.lineno))
@@ -619,4 +667,41 @@ def rule_mode_set_requested(db: ProgramDB) -> List[Instance]:
                             f"sets the requested mode" if ok else
                             f"with ambient mode {aname}, symbolic_mode(mode={rname}) sets {sorted(str(g) for g in got)} instead of "
                             f"the requested mode: evaluate() can then not switch symbolic mode off inside such a block"))
+    return out
+
+
+# ---------------------------------------------------------------------------------- EVAL-NO-CONTEXT
+def rule_eval_no_context(db: ProgramDB) -> List[Instance]:
+    """Evaluation switches the symbolic MODE off so that user code runs concretely (MODE-OFF-DOM).  User code may itself
+    open a block and build a query (a predicate written as a sub-query): what it builds consults the expression CONTEXT (the
+    stack of open `with <query>` blocks) - a predicate call in query mode is bound implicitly to the selected variable of
+    the innermost open query and conjoined into its conditions.  When evaluate() is called inside `with rule_mode(q):` that
+    context is q, so the mode-off switch has to set the context aside as well: on the path `mode is None` of the mode
+    manager, the block runs with an empty stack."""
+    from ..abseval import AbsEval, State, NONE, TOP
+    out = []
+    sm = db.fn("symbolic:symbolic_mode")
+    # the premise: something reachable from user code reads the context when in query mode
+    readers = [f for f in db.all_functions() if f.module == "predicate" and any(call_attr(c) == "_current_parent_" for c in own_calls(f))]
+    if not readers:
+        out.append(inst("EVAL-NO-CONTEXT", INFO, sm, "symbolic_mode[mode off: no expression context]", "nothing in the constructor path of @symbol classes reads the expression context"))
+        return out
+    cfg = CFG(sm)
+    ev = AbsEval(db, sm, cfg)
+
+    def sets_aside(nd):
+        return nd.kind == "stmt" and nd.ast is not None and any(o == "assign" and isinstance(x, ast.Assign) and isinstance(x.value, (ast.List, ast.Call))
+                                                                 for o, x in _stack_mutations(nd.ast))
+    ys = [nd for nd in cfg.nodes if nd.has_yield]
+    if not ys:
+        raise AnalysisError("symbolic_mode: no yield found")
+    init = State({"mode": NONE, "query": NONE})
+    p = ev.explore([(cfg.entry, init)], lambda nd: nd.has_yield, blocked=sets_aside, kinds=("n",))
+    ok = p is None
+    out.append(inst("EVAL-NO-CONTEXT", HOLDS if ok else VIOLATION, sm, "symbolic_mode[mode off: no expression context]",
+                    "with mode=None the expression-context stack is set aside before the block runs (and put back afterwards: STACK-PAIRING)" if ok else
+                    f"with mode=None the block runs under the expression context of the caller: when evaluate() is called inside `with rule_mode(q):`, a "
+                    f"predicate whose body builds a query (`with symbolic_mode(): an(entity(m, HasType(m, Handle)))`) has HasType bound implicitly to q's "
+                    f"selected variable and conjoined into q ({', '.join(r.short for r in readers)} read the context) - IndexError inside the block, "
+                    f"['g1'] outside", line=sm.lineno))
     return out
